@@ -528,6 +528,16 @@ fn run_single_program(
             crate::verif_hooks::delay_point(&format!("parent_after_fork{}", idx_cmd));
             if idx_cmd == 0 {
                 *pgid = pid;
+            }
+            unsafe {
+                // the parent puts the child into the job's process group as
+                // well (the child does the same for itself): whichever runs
+                // first creates the group, so a later stage never finds it
+                // missing and the terminal is never given to a group that
+                // does not exist yet.
+                libc::setpgid(pid, *pgid);
+            }
+            if idx_cmd == 0 {
                 unsafe {
                     // we need to wait pgid of child set to itself,
                     // before give terminal to it (for macos).
